@@ -302,6 +302,88 @@ def _task(task):
     return t
 
 
+def _task_long(task):
+    """Long fields (hundreds to tens of thousands of bytes): fixed, and taken from a 16-bit length parameter; whole buffers, terminators near
+    the start / in the middle / at the very end, leading size tags; aligned and unaligned."""
+    from mc.spec import Container, Doc, Cmp, header_entries, header_params, header_ptypes
+    t = Tally()
+    offset = task["offset"]
+    nbytes = task["nbytes"]
+    L = 8 * nbytes
+    specs = []
+    variants = [("bin:fixed", BinEnc(Fixed(L)), "bin"), ("bin:dyn16(x8)", BinEnc(Dyn("LEN16", False, 8, 0)), "bin"),
+                ("str:ascii:whole", StrEnc(Fixed(L), "US-ASCII"), "str1"), ("str:utf8:termNUL", StrEnc(Fixed(L), "UTF-8", None, "00"), "str1"),
+                ("str:latin1:dyn16(x8)", StrEnc(Dyn("LEN16", True, 8, 0), "ISO-8859-1"), "str1"),
+                ("str:utf16be:termNUL", StrEnc(Fixed(L), "UTF-16BE", None, "0000"), "str2"), ("str:utf16le:whole", StrEnc(Fixed(L), "UTF-16LE"), "str2"),
+                ("str:ascii:lead16", StrEnc(Fixed(L + 16), "US-ASCII", None, None, 16), "lead")]
+    for j, (label, enc, fam) in enumerate(variants):
+        pt = PType(f"T{j}", "Binary" if fam == "bin" else "String", enc)
+        pts = [pt, PType("LEN16_T", "Integer", IntEnc(16)), PType("SENT_T", "Integer", IntEnc(8))]
+        prs = [Param("LEN16", "LEN16_T"), Param(f"F_{j}", f"T{j}"), Param("SENT", "SENT_T")]
+        ents = []
+        if offset:
+            pts.append(docs.pad_type(offset))
+            prs.append(Param("PAD", f"PAD{offset}_T"))
+            ents.append(("p", "PAD"))
+        ents += [("p", "LEN16"), ("p", f"F_{j}"), ("p", "SENT")]
+        specs.append((pts, prs, ents))
+    doc = docs.selector_doc(specs)
+    try:
+        with case_alarm(120):
+            defn = load_doc(doc)
+    except BaseException as e:  # noqa: BLE001
+        t.violation({"kind": "load-failed", "exc": type(e).__name__, "long": True}, {"offset": offset, "nbytes": nbytes}, observed=str(e)[:300])
+        return t
+    base1 = bytes(0x21 + (i * 7) % 90 for i in range(nbytes))                       # printable ASCII, no NUL
+    base2 = b"".join(bytes([0x00, 0x21 + (i * 5) % 90]) for i in range(nbytes // 2))  # UTF-16BE text
+    for j, (label, enc, fam) in enumerate(variants):
+        bodies = []
+        if fam == "bin":
+            bodies = [base1, bytes(nbytes), b"\xff" * nbytes, bytes((i * 131 + 7) & 0xFF for i in range(nbytes))]
+        elif fam == "str1":
+            bodies = [base1]
+            for pos in (0, 1, nbytes // 2, nbytes - 2, nbytes - 1):
+                b = bytearray(base1)
+                b[pos] = 0
+                bodies.append(bytes(b))
+        elif fam == "str2":
+            src = base2 if "utf16be" in label else b"".join(bytes([c[1], c[0]]) for c in (base2[i:i + 2] for i in range(0, len(base2), 2)))
+            bodies = [src]
+            for pos in (0, 2, (nbytes // 4) * 2, nbytes - 2):
+                b = bytearray(src)
+                b[pos:pos + 2] = b"\x00\x00"
+                bodies.append(bytes(b))
+            odd = bytearray(src)       # a NUL byte pair that straddles two characters must not terminate
+            odd[3:5] = b"\x00\x00"
+            bodies.append(bytes(odd))
+        else:
+            for tag in sorted({0, 8, min(65528, 8 * (nbytes // 2)), min(65528, 8 * nbytes - 8), min(65528, 8 * nbytes)}):
+                bodies.append(tag.to_bytes(2, "big") + base1)
+        for body in bodies:
+            bits = "1" * offset + format(nbytes & 0xFFFF, "016b") + "".join(format(x, "08b") for x in body) + "10100101"
+            bits += "0" * ((-len(bits)) % 8)
+            if len(bits) // 8 > 65536:
+                continue
+            pkt = docs.packet_for(j, bits)
+            try:
+                with case_alarm(120):
+                    want = decode_packet(doc, pkt)
+                    obs = parse_one(defn, pkt)
+            except BaseException as e:  # noqa: BLE001
+                t.violation({"kind": "sweep-aborted", "exc": type(e).__name__, "long": True}, {"label": label, "offset": offset, "nbytes": nbytes}, observed=str(e)[:200])
+                continue
+            t.evals += 1
+            t.nontrivial += 1
+            t.outcomes[f"long:{fam}:{want.kind}"] += 1
+            why = compare_outcome(want, obs)
+            if why:
+                t.violation({"kind": "field-mismatch", "family": "long-" + fam, "label": label, "want": want.kind, "got": obs[0]},
+                            {"long": True, "label": label, "variant": j, "offset": offset, "nbytes": nbytes, "packet_head": pkt[:24].hex(), "body_index": bodies.index(body)},
+                            note=why[:300])
+        t.programs += 1
+    return t
+
+
 def run(ctx):
     offsets = [0, 3] if ctx.quick else list(range(8))
     tasks = []
@@ -313,6 +395,8 @@ def run(ctx):
         tasks.append({"family": "binary", "offset": off, "tier": ctx.tier, "via": "xml"})
     tasks.append({"family": "binary", "offset": 1, "tier": ctx.tier, "via": "objects"})
     tally = fan_out(_task, tasks, jobs=ctx.jobs, seed=ctx.seed)
+    sizes = (300, 4098, 30000) if ctx.quick else (300, 1000, 4098, 30000, 65000)
+    tally.merge(fan_out(_task_long, [{"offset": off, "nbytes": nb} for nb in sizes for off in ((0, 5) if ctx.quick else (0, 1, 5, 7))], jobs=ctx.jobs, seed=ctx.seed))
     coverage = {
         "programs": tally.programs,
         "exhaustive": True,
@@ -320,7 +404,9 @@ def run(ctx):
                   "{fixed lengths incl. non-byte and long buffers (up to 42 bytes), discrete lookup (3 entries incl. value 0, and no match; and 3 entries with OVERLAPPING criteria decoded in several orders), dynamic reference LEN/LENC raw/calibrated and LENH (calibrated 0.5x: fractional values) x "
                   "adjustments (8,0),(8,8),(1,0),(1,-8),none} x "
                   f"bit offsets {offsets} x every content over a 5-symbol alphabet for <= {3 if ctx.quick else 4} code units (every size-tag value family); "
-                  "binary: every fixed length 1..40 bits, lookup, dynamic lengths 0..40 bits, offsets 0..7, pattern family"),
+                  "binary: every fixed length 1..40 bits, lookup, dynamic lengths 0..40 bits, offsets 0..7, pattern family; "
+                  f"long fields of {sizes} bytes (binary fixed / from a 16-bit length, ASCII, UTF-8 with terminator at the start / middle / end, Latin-1 from a length, UTF-16 with aligned and "
+                  "straddling NUL pairs, 16-bit leading size), aligned and unaligned"),
         "rule": "one evaluation = one packet; distinct non-trivial = distinct (encoding configuration, offset) variants, each swept over its content family",
     }
     return {"level": LEVEL, "tally": tally, "coverage": coverage,
@@ -329,6 +415,9 @@ def run(ctx):
 
 
 def replay(case):
+    if case.get("long"):
+        t = _task_long({"offset": case["offset"], "nbytes": case["nbytes"]})
+        return next((v for v in t.violations if v["case"].get("variant") == case.get("variant") and v["case"].get("body_index") == case.get("body_index")), None)
     cs = case.get("charset") or [None, None]
     task = {"family": case["family"], "charset": tuple(cs), "offset": case["offset"], "tier": case.get("tier", "thorough"),
             "via": case.get("via", "xml"), "only": case["variant"]}
